@@ -111,7 +111,7 @@ def series(case):
         # NO flush (all samples of the generated families stay normal doubles or exact zeros; the reference compares, it never multiplies)
         peak = float(np.max(np.abs(a)))
         if peak > 0:
-            a = a * 2.0 ** (int(xm) - int(math.ceil(math.log2(peak))))
+            a = np.ldexp(a, int(xm) - int(math.ceil(math.log2(peak))))  # exact; the factor itself may exceed 2^1023
     else:
         a = np.where(np.abs(a) < FLUSH, 0.0, a)
     if spec.get("as") == "int":
@@ -126,6 +126,9 @@ def series(case):
         span = float(np.max(r) - np.min(r))
         r = (r - np.min(r)) * (min(1.0, (2.0 ** bits - 1) / span) if span > 0 else 1.0)
         arg = np.array(np.floor(r), dtype=case["uint"])
+    if case.get("narrow") and spec.get("as") in (None, "int") and not case.get("uint"):
+        # signed 8 / 16 / 32-bit counts over the full range of the dtype, most negative sample = the dtype's minimum
+        arg = gen.narrow_int(np.array(arg, dtype=float), case["narrow"])[0]
     a = np.array(arg, dtype=float)  # what the library sees (the int variant rounds)
     if isinstance(arg, np.ndarray):
         arg = arg.copy()
@@ -153,9 +156,11 @@ def _cases(draw, max_n=5000):
     elif draw(st.integers(0, 3)) == 0:
         case["outlier"] = [draw(st.sampled_from([0, 0, 1, -1, 3, 17])),
                            draw(st.sampled_from([-1.0, 1.0])) * 2.0 ** draw(st.integers(40, 70))]
+    if "uint" not in case and draw(st.integers(0, 6)) == 0:
+        case["narrow"] = draw(st.sampled_from(gen.NARROW_DTYPES))
     if draw(st.integers(0, 3)) == 0:
         # the object-level wrapper get_peak_indices(asig) with a real Signal / AccSignal holding the series
-        case["obj"] = [draw(st.sampled_from(["Signal", "AccSignal"])), draw(st.sampled_from(gen.REPO_DTS))]
+        case["obj"] = [draw(st.sampled_from(["AccSignal", "Signal", "AccSignal"])), draw(st.sampled_from(gen.REPO_DTS))]
     return case
 
 
@@ -173,6 +178,8 @@ def _classify(ctx, case, a, r_all, pl):
             ctx.cls("outlier")
         if case.get("uint") and spec.get("as") in (None, "int"):
             ctx.cls("unsigned-dtype")
+        elif case.get("narrow") and spec.get("as") in (None, "int"):
+            ctx.cls("narrow-int")
         if case.get("pow2") and spec.get("as") != "int":
             ctx.cls("rescaled")
     ctx.cls(gen.size_class(len(a)))
@@ -286,15 +293,19 @@ def exhaustive(case, ctx):
 def _signal(kind, arg, dt):
     """A real eqsig object holding the series -> (object, float64 copy of the values it holds)."""
     cls = eqsig.AccSignal if kind == "AccSignal" else eqsig.Signal
-    sig = cls(arg, float(dt))
-    return sig, np.array(sig.values, dtype=float)
+    try:
+        sig = cls(arg, float(dt))
+        return sig, np.array(sig.values, dtype=float)
+    except Exception:  # noqa  (building / reading the object is not this property's promise: C04 / C05)
+        return None, None
 
 
 def _check_wrapper(ctx, kind, arg, dt, fast=False):
     """get_peak_indices(asig) with a real Signal / AccSignal: the reported peaks of the values the object holds."""
     ctx.cls("wrapper=" + kind)
     sig, held = _signal(kind, arg, dt)
-    if (pm.is_constant if fast else ref.is_constant)(held):
+    if sig is None or held.ndim != 1 or len(held) < 2 or (pm.is_constant if fast else ref.is_constant)(held):
+        ctx.cls("wrapper-skipped")
         return
     got = np.asarray(ctx.lib(pc.get_peak_indices, sig))
     want = pm.local_peaks(held)[0].tolist() if fast else ref.local_peaks(held)[0]
@@ -308,9 +319,12 @@ def _check_wrapper(ctx, kind, arg, dt, fast=False):
     b[1:-1] = held[1:-1][::-1]
     j = 1 + (len(b) - 2) // 3
     b[j] = b[j] + (float(np.max(held)) - float(np.min(held)))
-    ctx.lib(sig.reset_values, b)
-    held = np.array(sig.values, dtype=float)
-    if (pm.is_constant if fast else ref.is_constant)(held):
+    try:
+        sig.reset_values(b)
+        held = np.array(sig.values, dtype=float)
+    except Exception:  # noqa  (not this property's promise)
+        return
+    if held.ndim != 1 or len(held) < 2 or (pm.is_constant if fast else ref.is_constant)(held):
         return
     ctx.cls("wrapper-history")
     got = np.asarray(ctx.lib(pc.get_peak_indices, sig))
@@ -322,13 +336,13 @@ def _check_wrapper(ctx, kind, arg, dt, fast=False):
 
 @clause(CLAUSES, "random", _cases(), quick=500, thorough=3000,
         rule="records of all kinds (element-wise reals, dyadic, few-level, noise, sines, pulse, step, walk, quake; n 2..5000; "
-             "ndarray / int / list / views / unsigned), optionally rounded to a coarse grid of 2..9 levels (plateau-rich), shifted by an offset "
+             "ndarray / int / list / views / unsigned / int8-16-32 full range), optionally rounded to a coarse grid of 2..9 levels (plateau-rich), shifted by an offset "
              "(2^k up to 2^30 or a real), rescaled by 2^k (|k| <= 300), with a leading plateau (40 %) and a trailing plateau; in a "
              "quarter of the cases also through get_peak_indices(Signal | AccSignal); non-trivial = at least one interior extremum",
         oracle="reference model (exact index equality) cross-checked against the statement's validity predicate; the anchored "
                "mechanisms called directly (plateau compression, peaks of the cleaned series, deprecated alias)",
         require={"lead-plateau": 0.25, "interior-plateau-extremum": 0.10, "offset": 0.15, "n>512": 0.10, "rescaled": 0.05, "outlier": 0.05,
-                 "unsigned-dtype": 0.02, "as=int": 0.03, "wrapper=Signal": 0.05, "wrapper=AccSignal": 0.05},
+                 "unsigned-dtype": 0.02, "narrow-int": 0.03, "as=int": 0.03, "wrapper=Signal": 0.05, "wrapper=AccSignal": 0.05},
         min_nontrivial=0.3)
 def random(case, ctx):
     a, arg = series(case)
@@ -583,6 +597,12 @@ def _mr_container(a, how):
         if np.all(ai == ai[0]):
             ai[len(ai) // 2] += 1
         return ai, ai.astype(float)
+    if how in gen.NARROW_DTYPES:
+        ai, av = gen.narrow_int(a - float(np.mean(a)), how)      # centred: counts of both signs, the most negative = the dtype's minimum
+        if np.all(av == av[0]):
+            ai[len(ai) // 2] += 1
+            av = ai.astype(float)
+        return ai, av
     if how == "list":
         return [float(v) for v in a], a
     if how in ("view", "negstride", "readonly"):
@@ -610,7 +630,7 @@ def _mr_params(kind, n, *parts):
     if _hu("off", *parts) < 0.4:
         c["offset"] = _pick([1024.0, -2.5, 1.0, -0.375, 2.0 ** 20], "offv", *parts)
     c["unit"] = _pick([0, 0, 0, -7, 5, -40, 33], "unit", *parts)
-    c["container"] = _pick(["ndarray", "ndarray", "ndarray", "list", "int", "readonly", "negstride", "view"], "cont", *parts)
+    c["container"] = _pick(["ndarray", "ndarray", "ndarray", "list", "int", "readonly", "negstride", "view", "int16", "int32", "int8"], "cont", *parts)
     if _hu("obj", *parts) < 0.5:
         c["obj"] = [_pick(["Signal", "AccSignal"], "objk", *parts), _pick(gen.REPO_DTS, "objdt", *parts)]
     return c
